@@ -239,13 +239,24 @@ Fixpoint last_bytes (v : value) : option bytes :=
   | _ => None
   end.
 
-(* the primitive that writes the last field at this context *)
+(* the primitive that writes the last field at this context (version tests resolved; under an optional the
+   layout alone cannot tell, see last_prim_v) *)
 Fixpoint last_prim (l : L) (c : ctx) : option lprim :=
   match l with
   | Layout.LPrim _ p => Some p
   | Layout.LSeq a b => match resolve LP b c with Layout.LEnd => last_prim a c | _ => last_prim b c end
   | Layout.LVer g a b => if eval_guard g c then last_prim a c else last_prim b c
   | _ => None
+  end.
+
+(* the same, following the branches the value took *)
+Fixpoint last_prim_v (l : L) (c : ctx) (v : value) : option lprim :=
+  match l, v with
+  | Layout.LPrim _ p, _ => Some p
+  | Layout.LSeq a b, VPair x y => match resolve LP b c with Layout.LEnd => last_prim_v a c x | _ => last_prim_v b c y end
+  | Layout.LVer g a b, _ => if eval_guard g c then last_prim_v a c v else last_prim_v b c v
+  | Layout.LOpt _ a b, VFlag fl x => if fl then last_prim_v a c x else last_prim_v b c x
+  | _, _ => None
   end.
 
 Definition is_lenpref_bytes (p : option lprim) : bool :=
@@ -321,7 +332,7 @@ Definition judge (c : case) : verdict :=
               match dec c with DecOk 0%N => VViolation | _ => VKnown 3 end
             (* finding 2 *)
             else match dec c, last_bytes t1 with
-                 | DecEOF _, Some [] => if is_lenpref_bytes (last_prim decl ctx) && model_dec then VKnown 2 else VViolation
+                 | DecEOF _, Some [] => if is_lenpref_bytes (last_prim_v decl ctx t1) && model_dec then VKnown 2 else VViolation
                  | _, _ => VViolation
                  end
       end
